@@ -1192,6 +1192,9 @@ class PDFPageInterpreter:
                 [xobj],
                 ctm=mult_matrix(matrix, self.ctm),
             )
+            # The nested interpreter shares our device and has set its own
+            # matrix on it; hand our matrix back for what follows the form.
+            self.device.set_ctm(self.ctm)
             self.device.end_figure(xobjid)
         elif subtype is LITERAL_IMAGE and "Width" in xobj and "Height" in xobj:
             self.device.begin_figure(xobjid, (0, 0, 1, 1), MATRIX_IDENTITY)
